@@ -11,6 +11,7 @@
 # A lane is /tmp/sc-lane-<lane>: a detached worktree of /repo's HEAD plus a copy of
 # /verif/sim whose palette dependency points into the worktree. The lane is kept
 # between calls (dependencies stay compiled) and removed by --clean.
+# SC_SIM_DIR=<dir>: copy the simulator from there instead of /verif/sim.
 # SC_COMMITTED=1: use the simulator as committed in /verif instead of the working copy.
 # Prints one line: "scratch: lane=.. property=.. change=.. exit=.. seconds=.. :: <first violation>"
 set -u
@@ -48,7 +49,7 @@ if [ -n "${SC_COMMITTED:-}" ]; then
   git -C /verif archive HEAD sim | tar -x -C "$wt/.simsrc"
   rsync -a --delete --exclude target "$wt/.simsrc/sim/" "$wt/.sim/"
 else
-  rsync -a --delete --exclude target /verif/sim/ "$wt/.sim/"
+  rsync -a --delete --exclude target "${SC_SIM_DIR:-/verif/sim}/" "$wt/.sim/"
 fi
 sed -i "s#/repo/palette#$wt/palette#" "$wt/.sim/Cargo.toml"
 cp /verif/known_findings.json "$wt/.vd/"
